@@ -503,6 +503,70 @@ async fn crowd_then_late_client(listener: SimListener, max: usize, accept_at_max
     }
 }
 
+/// The server is reconfigured (idle timeout 2 s -> 30 s) while a connection
+/// is still being set up, or just before, or just after. On each of these
+/// connections a request is answered, five quiet seconds pass - longer than
+/// the old idle timeout, far below the new one - and a second request is
+/// answered too.
+async fn reconfigure_during_setup(listener: SimListener, reconfigure: Box<dyn Fn(stream::Config)>, new_cfg: stream::Config) {
+    let setup_ms = 50 + sim::draw("rds.setup_ms", 200);
+    // When the connection is opened relative to the reconfigure() call (at
+    // 300 ms): well before (set up and running), so that the call falls into
+    // its set-up, or after.
+    let connect_at = match sim::draw("rds.when", 3) {
+        0 => 100,
+        1 => 300 - setup_ms / 2,
+        _ => 350,
+    };
+    let slow: Arc<dyn Fn(usize) -> ConnectPlan + Send + Sync> = Arc::new(move |_| ConnectPlan { setup_delay_ms: if connect_at == 100 { 0 } else { setup_ms }, ..Default::default() });
+    let c = listener.connector(addr(75, 6400), slow);
+    let client = async move {
+        sim::sleep_ms(connect_at).await;
+        let mut s = c.connect_sim().await.ok()?;
+        for (n, id) in [(1u32, 0x7501u16), (2, 0x7502)] {
+            let ask = Ask { k: 930_000 + n, n: 1, s: 20, m: 1, d: 0, e: 0, p: 0, o: 0 };
+            let mut q = MessageBuilder::new_vec();
+            q.header_mut().set_id(id);
+            let mut q = q.question();
+            q.push((Name::<Vec<u8>>::from_chars(format!("{}.svc.", ask.label()).chars()).unwrap(), Rtype::TXT)).unwrap();
+            if s.write_all(&dns::frame(&q.into_message().into_octets())).await.is_err() {
+                return Some(n);
+            }
+            let mut len = [0u8; 2];
+            let got = tokio::time::timeout(Duration::from_secs(10), async {
+                s.read_exact(&mut len).await.ok()?;
+                let mut body = vec![0u8; u16::from_be_bytes(len) as usize];
+                s.read_exact(&mut body).await.ok()?;
+                Some(body)
+            })
+            .await;
+            sim::sync_clock();
+            match got {
+                Ok(Some(body)) if dns::parse(&body).is_some_and(|p| p.id == id && p.qr) => {}
+                _ => return Some(n),
+            }
+            if n == 1 {
+                sim::sleep_ms(5000).await;
+            }
+        }
+        None
+    };
+    let reconf = async move {
+        sim::sleep_ms(300).await;
+        ev!("stream server reconfigure(): idle timeout 2 s -> 30 s");
+        reconfigure(new_cfg);
+    };
+    let (failed_at, _) = futures_util::join!(client, reconf);
+    if let Some(n) = failed_at {
+        sim::violation(
+            P,
+            "exactly-once",
+            "response-lost/stream/connection-lives-by-the-configuration-from-before-reconfigure".to_string(),
+            format!("the server was reconfigured at 300 ms (idle timeout 2 s -> 30 s); a connection opened at {} ms (set-up {} ms) got no answer to its request number {} (the second one comes five quiet seconds after the first)", connect_at, if connect_at == 100 { 0 } else { setup_ms }, n),
+        );
+    }
+}
+
 /// A well-behaved stream client with one plain request: up to five attempts
 /// (a fresh connection each), a second apart, 20 s for the answer each time.
 async fn late_stream_client(listener: &SimListener, host: u8, k: u32) -> bool {
@@ -1162,11 +1226,21 @@ impl Scenario for ServerScn {
 async fn run(_tier: Tier) {
     let hostile = sim::draw("hostile", 4) != 0;
     let max_response_size = *sim::pick("cfg.max_response_size", &[Some(1232u16), Some(512), Some(4096), None, Some(700)]);
-    let knobs = StreamKnobs {
+    let mut knobs = StreamKnobs {
         max_queued: *sim::pick("cfg.max_queued", &[10usize, 2, 1, 64]),
         write_timeout_ms: *sim::pick("cfg.write_timeout", &[30_000u64, 1000, 200]),
         idle_timeout_ms: 1000 * *sim::pick("cfg.idle_timeout", &[30u64, 2, 10]),
     };
+    // One run in ten: the server starts with a short idle timeout (2 s) and
+    // is reconfigured to a long one (30 s) while a connection is still being
+    // set up (a handshake that takes a while). That connection, too, lives
+    // by the new setting. No other stream clients in such a run.
+    let reconf_during_setup = sim::chance("cfg.reconfigure_during_a_connection_setup", 1, 10);
+    if reconf_during_setup {
+        knobs.idle_timeout_ms = 2000;
+        sim::stat("probe.reconfigure_during_a_connection_setup");
+    }
+    let knobs = knobs;
     let use_cookies = sim::chance("cfg.cookies", 1, 3);
     ev!("cfg max_response_size={:?} max_queued={} write_timeout={}ms cookies={} hostile={}", max_response_size, knobs.max_queued, knobs.write_timeout_ms, use_cookies, hostile);
 
@@ -1210,7 +1284,7 @@ async fn run(_tier: Tier) {
     // sit there takes every slot (and more), leaves again, and a client that
     // comes afterwards must be served. No other stream clients in such a
     // run (a connection turned away at the limit is the configured policy).
-    let limit_binds = sim::chance("cfg.conn_limit_binds", 1, 6);
+    let limit_binds = !reconf_during_setup && sim::chance("cfg.conn_limit_binds", 1, 6);
     let accept_at_max = sim::chance("cfg.accept_connections_at_max", 1, 2);
     if limit_binds {
         sim::stat("probe.connection_limit_binds");
@@ -1219,6 +1293,7 @@ async fn run(_tier: Tier) {
     }
 
     let dgram_limit_log: Arc<std::sync::Mutex<Vec<(u64, Option<u16>)>>> = Arc::new(std::sync::Mutex::new(vec![(0, max_response_size)]));
+    let reconf_hook: Rc<RefCell<Option<Box<dyn Fn(stream::Config)>>>> = Rc::new(RefCell::new(None));
     macro_rules! start {
         ($svc:expr) => {{
             let svc = $svc;
@@ -1228,8 +1303,14 @@ async fn run(_tier: Tier) {
             tokio::spawn(async move { d2.run().await });
             let s2 = ssrv.clone();
             tokio::spawn(async move { s2.run().await });
+            {
+                let s5 = ssrv.clone();
+                *reconf_hook.borrow_mut() = Some(Box::new(move |c: stream::Config| {
+                    let _ = s5.reconfigure(c);
+                }));
+            }
             // Reconfigure mid-run (same settings): must be harmless.
-            if sim::chance("cfg.reconfigure", 1, 3) {
+            if !reconf_during_setup && sim::chance("cfg.reconfigure", 1, 3) {
                 let at = sim::draw("cfg.reconfigure_at_ms", 60);
                 let s3 = ssrv.clone();
                 let cfg = scfg.clone();
@@ -1264,7 +1345,7 @@ async fn run(_tier: Tier) {
                     let _ = d4.shutdown();
                 });
             }
-            if !limit_binds && sim::chance("cfg.shutdown", 1, 6) {
+            if !limit_binds && !reconf_during_setup && sim::chance("cfg.shutdown", 1, 6) {
                 let at = 1 + sim::draw("cfg.shutdown_at_ms", 160);
                 let s4 = ssrv.clone();
                 tokio::spawn(async move {
@@ -1337,7 +1418,7 @@ async fn run(_tier: Tier) {
 
     let exec = Exec::new();
     let n_udp = sim::draw("n_udp_clients", 4) as usize;
-    let n_tcp = if limit_binds { 0 } else { sim::draw("n_tcp_clients", 4) as usize };
+    let n_tcp = if limit_binds || reconf_during_setup { 0 } else { sim::draw("n_tcp_clients", 4) as usize };
     let junk: Rc<RefCell<Vec<Vec<u8>>>> = Rc::new(RefCell::new(Vec::new()));
     let mut k = 1u32;
     for c in 0..n_udp {
@@ -1354,7 +1435,17 @@ async fn run(_tier: Tier) {
         let max = scfg.max_concurrent_connections();
         exec.spawn("crowd-then-late-client".to_string(), crowd_then_late_client(listener.clone(), max, accept_at_max, knobs.idle_timeout_ms));
     }
-    if !limit_binds && sim::chance("setup_failer", 1, 3) {
+    if reconf_during_setup {
+        let mut ccfg2 = ConnectionConfig::new();
+        ccfg2.set_max_queued_responses(knobs.max_queued);
+        ccfg2.set_response_write_timeout(Duration::from_millis(knobs.write_timeout_ms));
+        ccfg2.set_idle_timeout(Duration::from_millis(30_000));
+        let mut scfg2 = stream::Config::new();
+        scfg2.set_connection_config(ccfg2);
+        let hook = reconf_hook.borrow_mut().take().expect("reconfigure hook");
+        exec.spawn("reconfigure-during-setup".to_string(), reconfigure_during_setup(listener.clone(), hook, scfg2));
+    }
+    if !limit_binds && !reconf_during_setup && sim::chance("setup_failer", 1, 3) {
         // Connections whose server-side set-up fails (a failed handshake),
         // spread over the run.
         let n = 1 + sim::draw("setup_failer.n", 14);
